@@ -57,6 +57,7 @@ type c13Op struct {
 	Ub      int64   `json:"ub,omitempty"` // bucketUpperBound argument
 	BigN    int     `json:"bign,omitempty"` // hist: BigN duration bounds 7, 14, 21, ... instead of B
 	BigTag  int     `json:"bigtag,omitempty"` // alloc: one more tag "big" with a value of BigTag bytes (beyond the UDP datagram limit: such a value can never be sent)
+	Fit     int     `json:"fit,omitempty"`    // alloc (counter, Binary protocol): one more tag "big" sized so that the datagram carrying one report of this metric alone has exactly Fit bytes (a value that fits: required like any other)
 	Pre     bool    `json:"pre,omitempty"`  // multi/shared: made by the main goroutine before the producers start
 	N       int     `json:"n,omitempty"`    // burst: N reports with the values V, V+1, ... through handle / bucket H
 }
@@ -414,6 +415,7 @@ type c13Result struct {
 	O        c13Obs
 	SendCoq  bool
 	NoModel  bool // the history is checked by the direct predicate only
+	FitNote  string
 	BFlag    bool
 }
 
@@ -424,7 +426,13 @@ func (r *c13Result) fail(pred, f string, a ...interface{}) {
 }
 
 func c13Show(w *c13Want) string {
-	return fmt.Sprintf("{p%d name %+q type %d count %d gauge %#x timer %d tags %+q ts %d}", w.P, w.Name, w.Type, w.Count, uint64(w.Gauge), w.Timer, w.Tags, w.Ts)
+	tags := append([]string(nil), w.Tags...)
+	for i, t := range tags { // a tag value sized to fill a datagram is shown by its length
+		if len(t) > 200 {
+			tags[i] = fmt.Sprintf("%s...(%d bytes)", t[:40], len(t))
+		}
+	}
+	return fmt.Sprintf("{p%d name %+q type %d count %d gauge %#x timer %d tags %+q ts %d}", w.P, w.Name, w.Type, w.Count, uint64(w.Gauge), w.Timer, tags, w.Ts)
 }
 
 const c13Internal = "tally.internal."
@@ -561,6 +569,22 @@ func c13Run(c *c13Case, waitClock bool) (res c13Result) {
 				oversize[string(o.Name)] = true
 				res.NoModel = true
 				classMu.Unlock()
+			}
+			if o.Fit > 0 {
+				n := c13FitSize(opts, string(o.Name), m, o.Fit)
+				classMu.Lock()
+				res.NoModel = true
+				classMu.Unlock()
+				if n <= 0 {
+					// the probe did not show the expected size: the case is run without the metric's big tag
+					res.FitNote = fmt.Sprintf("exact-fit calibration for %d bytes failed; case run with a short tag", o.Fit)
+				} else {
+					mm := map[string]string{"big": strings.Repeat("x", n)}
+					for k, v := range m {
+						mm[k] = v
+					}
+					m = mm
+				}
 			}
 			hd := &handle{op: o, tags: c13MapKey(m)}
 			var hi interface{}
@@ -1193,6 +1217,74 @@ func c13GenOversize(r *Rng, i int) c13Case {
 	return c
 }
 
+// c13FitSize returns the length of the value of a tag "big" with which one report of the counter
+// (name, tags + big), flushed alone under the Binary protocol with the case's options, travels in a
+// datagram of exactly `fit` bytes - or 0 when that could not be established.  Two probes on reporters
+// of their own: one with a 60000-byte value gives the overhead; the second, sized for fit-1 bytes,
+// must show exactly fit-1 bytes.  Under the Binary protocol strings carry a fixed four-byte length,
+// so one more byte of tag value is one more byte of datagram.
+func c13FitSize(opts m3.Options, name string, tags map[string]string, fit int) int {
+	probe := func(n int) int {
+		sink := c13Listen()
+		o := opts
+		o.HostPorts = []string{sink.l.LocalAddr().String()}
+		o.Protocol = m3.Binary
+		r, err := m3.NewReporter(o)
+		if err != nil {
+			sink.finish(0)
+			return -1
+		}
+		mm := map[string]string{"big": strings.Repeat("x", n)}
+		for k, v := range tags {
+			mm[k] = v
+		}
+		r.Flush()
+		cnt := r.AllocateCounter(name, mm)
+		cnt.ReportCount(1)
+		r.Flush()
+		r.Close()
+		got, _ := sink.finish(0)
+		size := -1
+		for _, g := range got {
+			if len(g) > n {
+				size = len(g)
+			}
+		}
+		return size
+	}
+	d0 := probe(60000)
+	if d0 < 60000 {
+		return 0
+	}
+	n1 := 60000 + (fit - 1) - d0
+	if n1 <= 0 || probe(n1) != fit-1 {
+		return 0
+	}
+	return n1 + 1
+}
+
+// a value whose datagram has exactly the largest size the transport accepts (thriftudp.MaxLength
+// = 65000 bytes), and one byte less: "every value reported ... appears in exactly one emitted
+// batch" - it fits, so it is required like any other; ordinary values around it
+func c13GenExactFit(r *Rng, i int) c13Case {
+	c := c13Case{Kind: "exact", Producers: 1, Proto: "binary", Dests: 1 + i%2, MaxPacket: []int32{1440, 0, 32768}[i%3],
+		Queue: []int{4096, 2}[r.Intn(2)], Service: "svc", Env: "test"}
+	fit := []int{65000, 64999, 65000, 64998}[i%4]
+	c.Ops = []c13Op{
+		{Op: "alloc", K: 1, Name: "ok", Tags: map[B]B{"a": "b"}},
+		{Op: "rep", H: 0, V: 1},
+		{Op: "flush"},
+		{Op: "alloc", K: 1, Name: "exact-fit-metric", Tags: map[B]B{"t": "u"}, Fit: fit},
+		{Op: "flush"},
+		{Op: "rep", H: 3, V: int64(100 + i)},
+		{Op: "flush"},
+		{Op: "rep", H: 0, V: 2},
+		{Op: "flush"},
+		{Op: "rep", H: 0, V: 3},
+	}
+	return c
+}
+
 // tag-set sizes around the capacity of the pooled tag slices (batchPoolSize = 10) and well beyond
 var c13ManyTags = []int{9, 10, 11, 12, 13, 17, 25, 40}
 
@@ -1578,6 +1670,9 @@ func init() {
 				term = gcase(ctx.Res.Evaluations, res.Params, res.In, res.Obs)
 			}
 			ctx.Case(c, term, c13Class4(c, &res), key)
+			if res.FitNote != "" {
+				ctx.Note("%s", res.FitNote)
+			}
 			reports += res.Reported
 			datagrams += res.Batches
 			if res.BFlag {
@@ -1660,6 +1755,10 @@ func init() {
 		}
 		for i, no := 0, ctx.N(6, 36); i < no; i++ {
 			c := c13GenOversize(ctx.R, i)
+			one(&c, false)
+		}
+		for i, nf := 0, ctx.N(4, 16); i < nf; i++ {
+			c := c13GenExactFit(ctx.R, i)
 			one(&c, false)
 		}
 		// shared handles: small histories through the model, large ones by the direct predicate only
